@@ -107,6 +107,8 @@ type c14Run struct {
 	n       *chainntnfs.TxNotifier
 	hints   *channeldb.HeightHintCache
 	maxRegs int
+	// scriptOnly: clients register by script alone (zero txid / zero outpoint)
+	scriptOnly bool
 	chain   []c14Block
 	blkID   map[chainhash.Hash]int
 	spID    map[chainhash.Hash][2]int // spender tx hash -> (o, v)
@@ -122,6 +124,7 @@ var c14Nonce uint32
 func c14NewRun(t *testing.T, hints *channeldb.HeightHintCache, salt uint32, nouts, maxRegs, safety int) *c14Run {
 	r := &c14Run{
 		u: c14Universe{salt: salt, nouts: nouts}, hints: hints, maxRegs: maxRegs,
+		scriptOnly: verifkit.EnvInt("VERIF_SCRIPTONLY", 0) == 1,
 		blkID: map[chainhash.Hash]int{}, spID: map[chainhash.Hash][2]int{},
 		regs:    map[int]*c14Reg{},
 		confReq: map[int]chainntnfs.ConfRequest{}, spReq: map[int]chainntnfs.SpendRequest{},
@@ -129,8 +132,7 @@ func c14NewRun(t *testing.T, hints *channeldb.HeightHintCache, salt uint32, nout
 	}
 	r.n = chainntnfs.NewTxNotifier(c14Start, uint32(safety), hints, hints)
 	for o := 1; o <= nouts; o++ {
-		op := r.u.outpoint(o)
-		sr, err := chainntnfs.NewSpendRequest(&op, r.u.spendScript(o))
+		sr, err := chainntnfs.NewSpendRequest(r.opArg(o), r.u.spendScript(o))
 		if err != nil {
 			t.Fatal(err)
 		}
@@ -139,7 +141,7 @@ func c14NewRun(t *testing.T, hints *channeldb.HeightHintCache, salt uint32, nout
 			tx := r.u.spender(o, v)
 			h := tx.TxHash()
 			r.spID[h] = [2]int{o, v}
-			cr, err := chainntnfs.NewConfRequest(&h, r.u.confScript(o, v))
+			cr, err := chainntnfs.NewConfRequest(r.txidArg(o, v), r.u.confScript(o, v))
 			if err != nil {
 				t.Fatal(err)
 			}
@@ -150,6 +152,23 @@ func c14NewRun(t *testing.T, hints *channeldb.HeightHintCache, salt uint32, nout
 }
 
 func (r *c14Run) tip() int { return len(r.chain) }
+
+// txidArg / opArg: what the client passes as txid / outpoint (nil = script only).
+func (r *c14Run) txidArg(o, v int) *chainhash.Hash {
+	if r.scriptOnly {
+		return nil
+	}
+	h := r.u.spender(o, v).TxHash()
+	return &h
+}
+
+func (r *c14Run) opArg(o int) *wire.OutPoint {
+	if r.scriptOnly {
+		return nil
+	}
+	op := r.u.outpoint(o)
+	return &op
+}
 
 // guarded runs one call of the real code; a panic or a call that does not
 // return (a send on a full channel under the notifier's mutex) is recorded.
@@ -221,9 +240,8 @@ func (r *c14Run) step(ev c14Event) (verifkit.Rec, bool) {
 
 	case "RegConf":
 		o, v := c14OutOf(ev.T), c14VarOf(ev.T)
-		txid := r.u.spender(o, v).TxHash()
 		call = func() error {
-			reg, err := r.n.RegisterConf(&txid, r.u.confScript(o, v), uint32(ev.N), uint32(c14Start+ev.Hint))
+			reg, err := r.n.RegisterConf(r.txidArg(o, v), r.u.confScript(o, v), uint32(ev.N), uint32(c14Start+ev.Hint))
 			if err != nil {
 				return err
 			}
@@ -236,9 +254,8 @@ func (r *c14Run) step(ev c14Event) (verifkit.Rec, bool) {
 		}
 
 	case "RegSpend":
-		op := r.u.outpoint(ev.T)
 		call = func() error {
-			reg, err := r.n.RegisterSpend(&op, r.u.spendScript(ev.T), uint32(c14Start+ev.Hint))
+			reg, err := r.n.RegisterSpend(r.opArg(ev.T), r.u.spendScript(ev.T), uint32(c14Start+ev.Hint))
 			if err != nil {
 				return err
 			}
